@@ -78,7 +78,6 @@ type Stream struct {
 
 	readDeadline  time.Time
 	writeDeadline time.Time
-	readTimer     *time.Timer
 
 	// if inFallbackState is set to true, sending should use uds
 	inFallbackState bool
@@ -150,22 +149,12 @@ func (s *Stream) readMore(minSize int) (err error) {
 	var timeoutCh <-chan time.Time
 	deadline := s.readDeadline
 	if !deadline.IsZero() {
-		if s.readTimer == nil {
-			s.readTimer = time.NewTimer(time.Until(deadline))
-		} else {
-			s.readTimer.Reset(time.Until(deadline))
-		}
-		timeoutCh = s.readTimer.C
+		// a timer of its own for every wait: Stop() == false does not guarantee that the tick is already in
+		// the channel, so a reused timer could deliver the tick of an earlier deadline to a later call
+		timer := time.NewTimer(time.Until(deadline))
+		defer timer.Stop()
+		timeoutCh = timer.C
 	}
-
-	defer func() {
-		if s.readTimer != nil && !s.readTimer.Stop() {
-			select {
-			case <-s.readTimer.C:
-			default:
-			}
-		}
-	}()
 	for {
 		select {
 		case <-s.recvNotifyCh:
